@@ -2,7 +2,7 @@
     not only the frozen model -- is run against the implementation (a translator bug is a
     model bug). *)
 From Coq Require Extraction ExtrOcamlBasic.
-From HV Require Gen.GData Gen.GInt Gen.GTable Gen.GHuff Gen.GDecoder Gen.GEncoder.
+From HV Require Gen.GData Gen.GInt Gen.GTable Gen.GHuff Gen.GDecoder Gen.GEncoder Gen.GInit Gen.GApi.
 Extraction Language OCaml.
 Set Extraction KeepSingleton.
 Separate Extraction
@@ -17,4 +17,6 @@ Separate Extraction
   GDecoder.Decoder__decode_literal_no_index GDecoder.Decoder__decode_literal_index GDecoder.Decoder_decode
   GEncoder.Encoder_header_table_size GEncoder.Encoder_set_header_table_size
   GEncoder.Encoder__encode_indexed GEncoder.Encoder__encode_literal GEncoder.Encoder__encode_indexed_literal
-  GEncoder.Encoder__encode_table_size_change GEncoder.Encoder_add.
+  GEncoder.Encoder__encode_table_size_change GEncoder.Encoder_add
+  GInit.HeaderTable_init GInit.Decoder_init GInit.Encoder_init
+  GApi._to_bytes GApi._dict_to_iterable GApi.Encoder_encode.
